@@ -366,7 +366,6 @@ def rule_size_switch(ctx, rule='R05.8'):
     the value is truncated or neighbouring members are written into the stream and read back over the member)."""
     recs, rows, dt, inv, sim = rows_and_leaves()
     tu = cfront.load_tu('output.c')
-    fn = tu.func('reb_simulation_save_to_stream')
     by_dtype = {}
     for r in rows:
         d = inv.get(r.dtype)
@@ -379,9 +378,15 @@ def rule_size_switch(ctx, rule='R05.8'):
     n = 0
     samples = []
     found = 0
-    for sw in walk(cfront.body(fn)):
-        if sw.get('kind') != 'SwitchStmt':
+    # the switch may sit in the serialiser itself or in a file-local function that returns the byte count
+    switches = []
+    for fname_, f_ in tu.funcs.items():
+        if cfront.basename(f_.get('_locfile') or f_.get('_file')) != 'output.c':
             continue
+        for sw in walk(cfront.body(f_)):
+            if sw.get('kind') == 'SwitchStmt':
+                switches.append((fname_, sw))
+    for fname_, sw in switches:
         cases = []
         cur = None
         body_ = sw['inner'][-1]
@@ -393,23 +398,25 @@ def rule_size_switch(ctx, rule='R05.8'):
                     cur = lab[0] if lab else None
                 node = node['inner'][-1]
             s = strip(node)
-            if is_assign(s) and render(s['inner'][0]) == 'field.size' and cur:
-                cases.append((cur, s))
-        if not cases or not all(c.startswith('REB_') and c in dt for c, _ in cases):
+            if is_assign(s) and render(s['inner'][0]).endswith('.size') and cur:
+                cases.append((cur, s, s['inner'][1]))
+            elif node.get('kind') == 'ReturnStmt' and node.get('inner') and cur and 'sizeof' in render(node['inner'][0]):
+                cases.append((cur, node, node['inner'][0]))
+        if not cases or not all(c.startswith('REB_') and c in dt for c, _, _ in cases):
             continue
         found += 1
-        for lab, s in cases:
-            size = _const_size(s['inner'][1], recs)
+        for lab, s, valnode in cases:
+            size = _const_size(valnode, recs)
             members = by_dtype.get(lab, [])
             n += 1
-            where = 'src/output.c:%s reb_simulation_save_to_stream' % line_of(s)
+            where = 'src/output.c:%s %s' % (line_of(s), fname_)
             bad = [(r, p, m) for r, p, m in members if m.size != size]
             if bad:
                 r, p, m = bad[0]
-                ctx.report(rule, 'size:' + lab, where, 'case %s writes %s = %d bytes, but the %d rows of that dtype designate members of %d bytes (e.g. row %d "%s": %s %s) - %s'
-                           % (lab, render(s['inner'][1]), size, len(members), m.size, r.type, r.name, m.ctype, p,
+                ctx.report(rule, 'size:' + lab, where, 'case %s gives %s = %d bytes, but the %d rows of that dtype designate members of %d bytes (e.g. row %d "%s": %s %s) - %s'
+                           % (lab, render(valnode), size, len(members), m.size, r.type, r.name, m.ctype, p,
                               'the value is truncated in the stream' if size < m.size else 'bytes of the following members are written and read back'))
             elif len(samples) < 5:
                 samples.append('%s case %s: %d bytes = size of all %d members of that dtype' % (where, lab, size, len(members)))
-    anchor(found >= 1, 'switch over the row dtype assigning field.size in reb_simulation_save_to_stream')
+    anchor(found >= 1, 'switch over the row dtype giving the byte count of a by-value field in output.c')
     ctx.covered(rule, 'byte counts of the writer\'s dtype switch equal the size of the members designated by the rows of that dtype', n, floor=9, samples=samples)
